@@ -54,13 +54,23 @@ def all_wf(term, ob):
 def o_render(term, ob, fails, where):
     """C01 on one observed value"""
     base = ob[BASE]
+    blank = None
     if '\x1b' in base:
-        return 'esc'
+        if not cuts_closed(ob):
+            return 'esc'                   # known finding K1
+        # theorem C01_display_tokens_esc: the rendering read with the library's control-sequence grammar, the characters of
+        # rejected (non-SGR) sequences counting as characters - here: each such sequence replaced by as many ordinary characters
+        blank = lambda w: CSI_RE.sub(lambda m: m.group(0) if m.group(2) == 'm' else 'Z' * len(m.group(0)), w).replace('\x1b', 'Z')
+        base = blank(base)
     wf = all_wf(term, ob)
     if wf is False:
         return 'not-wf'
     expected = [term.style(texts(l)) for l in ob[CHARS]]
     for (opt, rs, re_), out in zip(FLAGS8, ob[RENDERS]):
+        if blank:
+            out = blank(out) if False else CSI_RE.sub(lambda m: m.group(0) if m.group(2) == 'm' else 'Z' * len(m.group(0)), out)
+            # a lone ESC (not followed by '[') is an ordinary character for the grammar; ESC [ of an SGR sequence stays
+            out = re.sub('\x1b(?!\\[)', 'Z', out)
         r = term.run(out)
         if r is None or any(e is None for e in expected):
             continue
